@@ -161,4 +161,25 @@ theorem teneye_entry [Zero α] [NatCast α] [Div α] (m n : Nat) (hm : m % 2 = 0
   · intro i hi
     rw [g i hi, if_pos (exists_comb m n i hi)]
 
+
+/-- `teneye` is symmetric: permuting a subscript does not change the entry. -/
+theorem teneye_sym [Zero α] [NatCast α] [Div α] (m n : Nat) (hm : m % 2 = 0) (hm0 : m ≠ 0)
+    (p : List Nat) (hp : isPermOf p m = true) (i : List Nat) (hi : InBounds (List.replicate m n) i) :
+    ∃ E : Dense α, Dense.teneye m n = .ok E ∧ InBounds E.shape (gather i p) ∧ E.get (gather i p) = E.get i := by
+  obtain ⟨E, h1, h2, _, h4⟩ := teneye_entry (α := α) m n hm hm0
+  obtain ⟨hl, hb⟩ := (inBounds_replicate_iff m n i).1 hi
+  have hperm : (gather i p).Perm i := gather_perm_self (by rw [hl]; exact hp)
+  have hi' : InBounds (List.replicate m n) (gather i p) := by
+    rw [inBounds_replicate_iff]
+    exact ⟨hperm.length_eq.trans hl, fun x hx => hb x (hperm.mem_iff.1 hx)⟩
+  refine ⟨E, h1, h2 ▸ hi', ?_⟩
+  rw [h4 _ hi', h4 _ hi, pairCount_perm m hperm]
+
+theorem teneye_rejects [Zero α] [NatCast α] [Div α] (m n : Nat) :
+    (m % 2 = 1 → Dense.teneye (α := α) m n = .error .reject) ∧
+    (m = 0 → Dense.teneye (α := α) m n = .error .reject) := by
+  constructor
+  · intro h; simp [Dense.teneye, h]
+  · rintro rfl; rfl
+
 end Pyttb
